@@ -30,7 +30,7 @@ def _gens():
 
 
 def run(chk):
-    proved = chk.prove('props/C08.v', gens=_gens())
+    proved = chk.prove('props/C08.v', gens=_gens(), extra_targets=['C08/StreamCheck.vo'])
     with vlib.WorkDir('c08') as wd:
         _run(chk, wd, proved)
 
@@ -118,14 +118,16 @@ def gen_sum(chk):
     """-> list of (syms, capmax, eof)"""
     jobs = []
     k = 0
+    quick = chk.tier == 'quick'
     for syms in itertools.product(range(8), repeat=4):
-        for cm in (1, 2, 3, 8, 24, 1000):
+        for cm in ((2, 8, 1000) if quick else (1, 2, 3, 8, 24, 1000)):
             k += 1
             jobs.append((list(syms), cm, bool(k % 2)))
-    for syms in itertools.product(range(8), repeat=5):
+    # quick: 5 symbols without 0xFF (just another ordinary byte); thorough: all 8
+    for syms in itertools.product(range(7 if quick else 8), repeat=5):
         k += 1
         jobs.append((list(syms), 1000 if k % 3 else 2, bool(k % 2)))
-    if chk.tier != 'quick':
+    if not quick:
         for syms in itertools.product(range(8), repeat=6):
             k += 1
             jobs.append((list(syms), 1000 if k % 3 else 2, bool(k % 2)))
@@ -254,7 +256,7 @@ def _run(chk, wd, proved):
     cov['rule'] = ('one evaluation = one run of the real POutputDispatcher (reads then final flush) compared with the model '
                    'after every read; exhaustive: every fragmentation at symbol boundaries of every stream of n symbols over '
                    '{BEGIN, END, BEGIN-prefix, BEGIN-suffix, common prefix, END-suffix, "a", 0xFF} for n <= %d '
-                   '(n<=3 exact traces, n>=4 by checksum over all fragmentations), every byte-level single cut and double cut of '
+                   '(n<=3 exact traces, n>=4 by checksum over all fragmentations; quick tier: n=5 without 0xFF), every byte-level single cut and double cut of '
                    'canonical streams, capture_maxbytes in %r and -1; distinct_nontrivial = distinct (log length, events, event '
                    'lengths, mode) outcomes of exact runs in which a tag was recognised, plus distinct stream checksums'
                    % (5 if chk.tier == 'quick' else 6, CAPS))
@@ -295,7 +297,7 @@ def replay(chk, path):
     with open(path) as f:
         obj = json.load(f)
     print(json.dumps(obj, indent=1)[:3000])
-    proved = chk.prove('props/C08.v', gens=_gens())
+    proved = chk.prove('props/C08.v', gens=_gens(), extra_targets=['C08/StreamCheck.vo'])
     c = obj.get('case')
     if not c or 'frags' not in c:
         return run(chk)
